@@ -95,3 +95,45 @@ Proof.
   pose proof (Z.mod_pos_bound H 2 ltac:(lia)) as M.
   split_ifs; lia.
 Qed.
+
+(** ---- C12 over every history of health-check outcomes ----
+    [hrun outs] is the counter the heartbeat loop keeps (heartbeat.go: Add(1) on an unhealthy result, Store(0) on a
+    healthy one; the monitor's n_hrun, Sim/Mon2.v, is the same fold and is compared with the real runs). *)
+Definition hrun (outs : list bool) : nat :=
+  List.fold_left (fun acc (healthy : bool) => if healthy then O else S acc) outs O.
+
+Lemma hrun_snoc : forall l x, hrun (l ++ [x]) = if x then O else S (hrun l).
+Proof. intros l x. unfold hrun. rewrite List.fold_left_app. reflexivity. Qed.
+
+Lemma repeat_snoc : forall (n : nat), List.repeat false n ++ [false] = List.repeat false (S n).
+Proof. induction n as [|n IH]; cbn; [reflexivity|]. f_equal. exact IH. Qed.
+
+Lemma hrun_ge_suffix : forall outs n,
+  (n <= hrun outs)%nat <-> exists pre, outs = pre ++ List.repeat false n.
+Proof.
+  induction outs as [|x l IH] using List.rev_ind; intros n.
+  - cbn. split.
+    + intros H. assert (n = O) by lia. subst. exists []. reflexivity.
+    + intros [pre E]. destruct n as [|n]; [lia|].
+      destruct pre; cbn in E; discriminate.
+  - rewrite hrun_snoc. destruct n as [|n].
+    + split; [intros _; exists (l ++ [x]); cbn; rewrite List.app_nil_r; reflexivity | lia].
+    + split.
+      * intros H. destruct x; [lia|].
+        assert (Hn : (n <= hrun l)%nat) by lia.
+        apply IH in Hn. destruct Hn as [pre E]. exists pre.
+        rewrite E, <- List.app_assoc, repeat_snoc. reflexivity.
+      * intros [pre E]. rewrite <- repeat_snoc, List.app_assoc in E.
+        apply List.app_inj_tail in E. destruct E as [E ->].
+        assert (Hn : (n <= hrun l)%nat) by (apply IH; exists pre; exact E). lia.
+Qed.
+
+(* the regenerated comparison holds after a history exactly when its last [thr] outcomes were all unhealthy *)
+Lemma health_trips_history : forall outs thr,
+  1 <= thr ->
+  (gen_health_trips (Z.of_nat (hrun outs)) thr = true <->
+   exists pre, outs = pre ++ List.repeat false (Z.to_nat thr)).
+Proof.
+  intros outs thr Hthr. rewrite health_trips_spec, <- hrun_ge_suffix.
+  rewrite Z.leb_le. lia.
+Qed.
